@@ -73,18 +73,14 @@ const ORDER: [u8; 32] = [
     0xba, 0xae, 0xdc, 0xe6, 0xaf, 0x48, 0xa0, 0x3b, 0xbf, 0xd2, 0x5e, 0x8c, 0xd0, 0x36, 0x41, 0x41,
 ];
 pub unsafe fn model_ec_seckey_verify(_cx: *const sffi::Context, sk: *const c_uchar) -> c_int {
-    let mut nonzero = false;
-    let mut lt = false; // sk < n decided
-    let mut gt = false;
-    let mut i = 0;
-    while i < 32 {
-        let b = *sk.add(i);
-        if b != 0 { nonzero = true; }
-        if !lt && !gt {
-            if b < ORDER[i] { lt = true; } else if b > ORDER[i] { gt = true; }
-        }
-        i += 1;
-    }
+    // loop-free (harnesses run under small unwind bounds): 0 < sk < n, compared as four big-endian 64-bit words
+    let mut b = [0u8; 32];
+    core::ptr::copy_nonoverlapping(sk, b.as_mut_ptr(), 32);
+    macro_rules! w { ($x:expr, $i:expr) => { u64::from_be_bytes([$x[$i], $x[$i+1], $x[$i+2], $x[$i+3], $x[$i+4], $x[$i+5], $x[$i+6], $x[$i+7]]) }; }
+    let (a0, a1, a2, a3) = (w!(b, 0), w!(b, 8), w!(b, 16), w!(b, 24));
+    let (n0, n1, n2, n3) = (w!(ORDER, 0), w!(ORDER, 8), w!(ORDER, 16), w!(ORDER, 24));
+    let nonzero = (a0 | a1 | a2 | a3) != 0;
+    let lt = a0 < n0 || (a0 == n0 && (a1 < n1 || (a1 == n1 && (a2 < n2 || (a2 == n2 && a3 < n3)))));
     if nonzero && lt { 1 } else { 0 }
 }
 
@@ -94,8 +90,7 @@ pub fn any_secp_pubkey() -> bitcoin::secp256k1::PublicKey {
     let odd: bool = kani::any();
     let mut raw = [0u8; 64];
     raw[0] = if odd { 3 } else { 2 };
-    let mut i = 0;
-    while i < 32 { raw[1 + i] = x[i]; i += 1; }
+    raw[1..33].copy_from_slice(&x); // memcpy, no loop (harnesses run under small unwind bounds)
     bitcoin::secp256k1::PublicKey::from(unsafe { sffi::PublicKey::from_array_unchecked(raw) })
 }
 
@@ -110,8 +105,7 @@ pub fn fixed_secp_pubkey(tag: u8) -> bitcoin::secp256k1::PublicKey {
 pub fn any_xonly() -> bitcoin::secp256k1::XOnlyPublicKey {
     let x: [u8; 32] = kani::any();
     let mut raw = [0u8; 64];
-    let mut i = 0;
-    while i < 32 { raw[i] = x[i]; i += 1; }
+    raw[..32].copy_from_slice(&x);
     bitcoin::secp256k1::XOnlyPublicKey::from(unsafe { sffi::XOnlyPublicKey::from_array_unchecked(raw) })
 }
 
